@@ -1242,6 +1242,374 @@ def stream_errmsg(ctx):
                 ctx.witness('caret', {'line': line, 'column': col}, 'character under the caret is line[column-1]', bad)
 
 
+# ---------------------------------------------------------------------------------------------------------------------
+# Round 9: SCALE.  Every layout dimension the property quantifies over (indentation width, trailing blanks, nesting depth with
+# proportional indentation, number / width of inserted blank and comment lines, continuation pieces and the blanks around the
+# backslash, chunk count, empty chunks, token / line length, program length) is driven through a geometric size axis far beyond
+# what a hand-written script or a "few spaces or a tab" generator shows.  The oracle is the property itself, on the
+# implementation: identical model (same error text for a rejected program) as the canonical text.
+# ---------------------------------------------------------------------------------------------------------------------
+
+SCALE_SIZES = [0, 1, 2, 9, 10, 11, 16, 17, 64, 65, 100, 101, 128, 129, 256, 1000]
+SCALE_EXTRA = [3, 4, 5, 7, 8, 15, 24, 31, 32, 33, 40, 48, 63, 66, 72, 79, 80, 81, 99, 120, 121, 127, 130, 132, 200, 255, 257, 300, 500, 511, 512, 513,
+               999, 1001, 1023, 1024, 1025, 2000, 2048, 4096, 4097]
+SCALE_UNITS = [' ', '\t', ' \t', '\u3000', '\xa0', '\x0c ', '\u2003\t']
+KEYWORD_LINES = ['endfunction', 'else:', 'else :', 'endif', 'endwhile', 'endfor', 'break', 'continue']
+SCALE_PROGRAM = [
+    'function classify(values, n...):', 'result = arrayNew()', 'for value, ix in values:', 'if value == null:', 'continue',
+    'elif value < 0 || ix > 100:', 'break', 'else:', "arrayPush(result, value + ' # not a comment \\\\')", 'endif', 'endfor',
+    'while n:', 'n = n - 1', 'if n % 2:', 'continue', 'else :', 'break', 'endif', 'endwhile', 'return result', 'endfunction',
+    "include 'lib one.bare'", 'include <args.bare>',
+    "s = 'ls\u2028ps\u2029 ff\x0c vt\x0b nel\x85 rs\x1e' + \"two  blanks\" + [odd  name]",
+    'top:', 'jumpif (n < 3) top', 'jump done', 'done:', 'async function g():', 'return', 'endfunction', 'systemLog(s)', 'return classify(s, 1)',
+]
+SCALE_BLOCKS = [['a = 1'], ['while a:', 'break', 'endwhile'], ['if a:', 'b = 2', 'else:', "b = 'x  y'", 'endif'], ['f(a, b)'], ['for x in y:', 'continue', 'endfor'],
+                ['function f():', 'return', 'endfunction'], ["include 'a.bare'"], ['lbl:'], ['jump lbl'], ['if a:', 'elif b:', 'c = [d  e]', 'endif'], ['return a']]
+SCALE_LINES = KEYWORD_LINES + [
+    'endif x', 'breaks', 'else', 'else: x', 'continue;', 'endfunctions', 'a = 1', "a = 'x  y'", 'f(a, b)', 'function f(a, b...):', 'async function f():',
+    'if a:', 'elif a:', 'while a < 1:', 'for x, i in y:', 'lbl:', 'lbl :', 'jump lbl', 'jumpif (a) lbl', 'return', 'return a + 1', "include 'a.bare'",
+    'include <a.bare>', '?', 'a +', 'x y', 'a =', "s = 'open", 'x', '[a b]',
+]
+
+
+_SCALE_FULL = [False]
+
+
+def _scale_quick(ctx):
+    return ctx.quick and not _SCALE_FULL[0]
+
+
+def scale_sizes(ctx, rng, cap=None, extra=3):
+    """the geometric axis (quick: + a few sizes from SCALE_EXTRA, different every VERIF_SEED; thorough: all of them)"""
+    sizes = SCALE_SIZES + ([4096] + rng.sample(SCALE_EXTRA, extra) if _scale_quick(ctx) else SCALE_EXTRA)
+    return sorted({n for n in sizes if cap is None or n <= cap})
+
+
+def nested_program(rng, d):
+    """d blocks nested inside each other -> [(level, line)]: every keyword-only line kind occurs at the deep levels"""
+    head, tails = [], []
+    in_loop = False
+    for k in range(d):
+        kind = 'function' if k == 0 and rng.random() < 0.4 else rng.choice(['if', 'if', 'while', 'for'])
+        if kind == 'function':
+            head.append((k, 'function deep(a, b...):'))
+            tails.append([(k, 'endfunction')])
+        elif kind == 'if':
+            head.append((k, 'if a > %d:' % k))
+            tail = [(k, 'elif a == %d:' % k), (k + 1, 'b = %d' % k)] if rng.random() < 0.4 else []
+            tails.append(tail + [(k, rng.choice(['else:', 'else :'])), (k + 1, rng.choice(['break', 'continue']) if in_loop else 'b = b + 1'), (k, 'endif')])
+        elif kind == 'while':
+            head.append((k, 'while a < %d:' % k))
+            tails.append([(k + 1, 'a = a + 1'), (k + 1, 'continue'), (k, 'endwhile')])
+            in_loop = True
+        else:
+            head.append((k, 'for v%d, i%d in b:' % (k, k)))
+            tails.append([(k + 1, 'break'), (k, 'endfor')])
+            in_loop = True
+    body = [(d, "x = 'in  side'")] + ([(d, 'break')] if in_loop else [])
+    return head + body + [item for tail in reversed(tails) for item in tail]
+
+
+def long_program(n):
+    """a well-formed program of exactly n logical lines"""
+    lines = []
+    i = 0
+    while len(lines) < n:
+        block = SCALE_BLOCKS[i % len(SCALE_BLOCKS)]
+        lines += block if len(lines) + len(block) <= n else ['v%d = %d' % (i, i)]
+        i += 1
+    return lines
+
+
+def break_at(line, gaps, pre=lambda k: ' ', post=lambda k: '', ind=lambda k: ''):
+    """physical lines of `line` broken at the given gap indices (blanks before / after the backslash and the indentation of the
+    continued pieces are functions of the piece number)"""
+    parts = []
+    prev = 0
+    for g in gaps:
+        if g > prev and line[prev:g].strip():
+            parts.append(line[prev:g])
+            prev = g + 1
+    parts.append(line[prev:])
+    out = []
+    for k, part in enumerate(parts):
+        text = part if k == 0 else ind(k) + part.lstrip()
+        if k < len(parts) - 1:
+            text = text.rstrip() + pre(k) + '\\' + post(k)
+        out.append(text)
+    return out
+
+
+def scale_fillers(rng, n, kind):
+    if kind == 'blank':
+        return [''] * n
+    if kind == 'spaces':
+        return [' ' * rng.randint(1, 6) for _ in range(n)]
+    if kind == 'hash':
+        return ['#'] * n
+    if kind == 'comment':
+        return ['# comment %d: x = %d \\' % (i, i) if i % 3 == 0 else '    # comment %d' % i for i in range(n)]
+    return [rng.choice(COMMENTS) for _ in range(n)]
+
+
+def scale_wide_fillers(n):
+    """ONE inserted line whose width is n"""
+    return [('long-comment', '#' + 'x' * n), ('deep-comment', ' ' * n + '# deep'), ('deep-tab-comment', '\t' * n + '#'), ('wide-blank', ' ' * n),
+            ('wide-tab-blank', '\t' * n), ('comment-blanks-backslash', '# c' + ' ' * n + '\\'), ('comment-backslash-blanks', '# c \\' + ' ' * n),
+            ('wide-exotic-blank', '\u3000' * n)]
+
+
+def scale_layout_cases(ctx, rng):
+    """(dimension, n, variant, logical lines, physical lines, cuts or None=random few) - program-level cases"""
+    programs = [('fixed', SCALE_PROGRAM)]
+    for k in range(2):
+        programs.append((f'gen{k}', gen_program(rng)[0]))
+    programs.append(('bad0', break_program(rng, SCALE_PROGRAM)))
+    programs.append(('bad1', SCALE_PROGRAM[:9] + SCALE_PROGRAM[10:]))       # an endif is missing: the error path
+    small = ['', '', ' ', '    ', '\t']
+
+    def is_kw(line):
+        return line.strip() in KEYWORD_LINES
+
+    # A / B / AB: indentation width, trailing blanks, both, padding to a column
+    for n in scale_sizes(ctx, rng, None):
+        for pname, logical in programs[:3] if n <= 256 else programs[:1]:
+            unit = rng.choice(SCALE_UNITS)
+            yield 'indent', n, 'all:' + repr(unit), logical, [' ' * n + ln for ln in logical], None
+            yield 'indent', n, 'all-unit:' + repr(unit), logical, [(unit * n)[:n] + ln for ln in logical], None
+            yield 'indent', n, 'keyword-lines', logical, [(rng.choice([' ', '\t']) * n if is_kw(ln) else rng.choice(small)) + ln for ln in logical], None
+            k = rng.randrange(len(logical))
+            yield 'indent', n, 'one-line', logical, [(' ' * n if i == k else '') + ln for i, ln in enumerate(logical)], None
+            yield 'trailing', n, 'all', logical, [ln + ' ' * n for ln in logical], None
+            yield 'trailing', n, 'all-unit:' + repr(unit), logical, [rng.choice(small) + ln + (unit * n)[:n] for ln in logical], None
+            yield 'trailing', n, 'keyword-lines', logical, [rng.choice(small) + ln + (rng.choice([' ', '\t']) * n if is_kw(ln) else '') for ln in logical], None
+            yield 'trailing', n, 'pad-to-column', logical, [(ind + ln).ljust(n) for ln in logical for ind in [rng.choice(small)]], None
+            m = rng.choice(SCALE_SIZES[:-1])
+            yield 'indent+trailing', n, f'trailing:{m}', logical, [' ' * n + ln + ' ' * m for ln in logical], None
+        for pname, logical in programs[3:] if n in (9, 65, 129) or not _scale_quick(ctx) and n <= 256 else []:
+            yield 'indent', n, 'rejected-program', logical, ['\t' * n + ln for ln in logical], None
+            yield 'trailing', n, 'rejected-program', logical, [ln + ' ' * n for ln in logical], None
+
+    # C: nesting depth, indentation proportional to the depth
+    for d in scale_sizes(ctx, rng, 256 if _scale_quick(ctx) else 1000):
+        prog = nested_program(rng, d)
+        logical = [ln for _, ln in prog]
+        for unit in [rng.choice(['  ', '    ', '\t']), rng.choice([' ', '        ', ' \t', '\u3000'])] if d <= 256 else [' ']:
+            yield 'nesting', d, 'unit:' + repr(unit), logical, [unit * lvl + ln for lvl, ln in prog], None
+        yield 'nesting', d, 'reverse-indent', logical, [' ' * (d - lvl) + ln + ' ' * lvl for lvl, ln in prog], None
+
+    # D: number of inserted blank / comment lines, and the width of one inserted line
+    logical = SCALE_PROGRAM
+    cont_ix = [i for i, ln in enumerate(logical) if gap_positions(ln)]
+    for n in scale_sizes(ctx, rng, None):
+        for kind in ['blank', 'spaces', 'hash', 'comment', 'mixed'] if n <= 256 else [rng.choice(['blank', 'comment']), 'mixed']:
+            pos = rng.choice(['before', 'after', 'between', 'in-continuation', 'in-continuation'] + (['everywhere'] if n <= 17 else []))
+            fill = scale_fillers(rng, n, kind)
+            if pos == 'before':
+                phys = fill + logical
+            elif pos == 'after':
+                phys = logical + fill
+            elif pos == 'between':
+                k = rng.randrange(1, len(logical))
+                phys = logical[:k] + fill + logical[k:]
+            elif pos == 'everywhere':
+                phys = list(fill)
+                for ln in logical:
+                    phys += [ln] + scale_fillers(rng, n, kind)
+            else:
+                k = rng.choice(cont_ix)
+                gaps = gap_positions(logical[k])
+                pieces = break_at(logical[k], sorted(rng.sample(gaps, min(len(gaps), rng.choice([1, 1, 2])))))
+                mid = [pieces[0]]
+                for p in pieces[1:]:
+                    mid += scale_fillers(rng, n, kind) + [p]
+                phys = logical[:k] + mid + logical[k + 1:]
+            yield 'fill-count', n, kind + ':' + pos, logical, phys, None
+        for wname, wide in scale_wide_fillers(n):
+            k = rng.randrange(0, len(logical) + 1)
+            yield 'fill-width', n, wname, logical, logical[:k] + [wide] + logical[k:], None
+            k = rng.choice(cont_ix)
+            pieces = break_at(logical[k], gap_positions(logical[k])[:1])
+            if len(pieces) == 2:
+                yield 'fill-width', n, wname + ':in-continuation', logical, logical[:k] + [pieces[0], wide, pieces[1]] + logical[k + 1:], None
+
+    # E: continuation pieces (a logical line of n+1 pieces) and the blanks around the backslash
+    for n in scale_sizes(ctx, rng, None):
+        args = ', '.join(["'a  %d'" % i if i % 7 == 3 else str(i % 10) for i in range(n + 1)])
+        names = ', '.join('a%d' % i for i in range(n + 1))
+        family = [('call', ['if x:', 'v = f(' + args + ')', 'else:', 'v = 0', 'endif']),
+                  ('function-header', ['function f(' + names + '...):', 'return a0', 'endfunction']),
+                  ('for-values', ['for x, i in f(' + args + '):', 'continue', 'endfor']),
+                  ('jumpif', ['lbl:', 'jumpif (f(' + args + ')) lbl'])]
+        if n <= 256:
+            family.append(('binary-chain', ['while 1' + ''.join(' || a%d' % i for i in range(n)) + ' :', 'break', 'endwhile']))
+        for vname, logical in family:
+            ix = max(range(len(logical)), key=lambda i: len(logical[i]))
+            gaps = gap_positions(logical[ix])
+            gaps = gaps[max(0, len(gaps) - n):] if n else []
+            style = rng.randrange(3)
+            pieces = break_at(logical[ix], gaps, pre=lambda k: [' ', '', '\t  '][style], post=lambda k: ['', ' ', '\t'][(k + style) % 3],
+                              ind=lambda k: ['', '    ', '\t'][(k * style) % 3])
+            yield 'pieces', n, vname, logical, logical[:ix] + pieces + logical[ix + 1:], None
+        logical = ['while x:', 'v = 1 + f(2, 3)', 'break', 'endwhile']
+        gaps = gap_positions(logical[1])
+        for g in (gaps[0], gaps[2], gaps[-1]):
+            unit = rng.choice([' ', '\t', '\u3000'])
+            yield 'backslash', n, 'blanks-before', logical, logical[:1] + break_at(logical[1], [g], pre=lambda k: unit * n) + logical[2:], None
+            yield 'backslash', n, 'blanks-after', logical, logical[:1] + break_at(logical[1], [g], post=lambda k: unit * n) + logical[2:], None
+            yield 'backslash', n, 'continued-indent', logical, logical[:1] + break_at(logical[1], [g], ind=lambda k: unit * n) + logical[2:], None
+        yield 'backslash', n, 'all-three', logical, logical[:1] + break_at(logical[1], gaps, pre=lambda k: ' ' * n, post=lambda k: ' ' * n, ind=lambda k: ' ' * n) + logical[2:], None
+        yield 'backslash', n, 'keyword-line', ['if x:', 'y = 1', 'else :', 'y = 2', 'endif'], ['if x:', 'y = 1', ' ' * n + 'else' + ' ' * n + '\\' + ' ' * n, ' ' * n + ':', 'y = 2', 'endif'], None
+
+    # F: chunk count (n cuts), one chunk per line, n empty chunks
+    for n in scale_sizes(ctx, rng, None):
+        logical = long_program(max(8, n + rng.randint(1, 9))) if rng.random() < 0.5 else (SCALE_PROGRAM * (1 + n // 25))
+        phys = physical_lines(rng, logical, indent=WS_PLAIN, trailing=['', '', ' ', '\t '], breaks=rng.choice([0.0, 0.1]), comments_p=rng.choice([0.0, 0.3]))
+        nb = len(phys) - 1
+        yield 'chunks', n, 'cuts', logical, phys, set(rng.sample(range(nb), min(n, nb)))
+        yield 'chunks', n, 'first-boundaries', logical, phys, set(range(min(n, nb)))
+        yield 'chunks', n, 'empty-chunks', SCALE_PROGRAM, ('empty', n), None
+
+    # G: token / line length
+    for n in scale_sizes(ctx, rng, None):
+        body = ('a b  ' * n)[:n]
+        for vname, line in [('string', "s = '" + body + "'"), ('dstring', 's = f("' + body + '", 1)'), ('identifier', 'v' + 'x' * n + ' = 1'),
+                            ('label', 'L' + 'b' * n + ':'), ('include', "include '" + 'u' * n + ".bare'"), ('include-system', 'include <' + body.replace(' ', '_') + '>'),
+                            ('bracket-name', 'w = [' + body.replace(']', 'x') + 'n] + 1'), ('call-args', 'f(' + ', '.join(['1'] * (n + 1)) + ')'),
+                            ('jump', 'jump L' + 'b' * n), ('number', 'k = 1' + '0' * min(n, 300) + ' + 1')]:
+            logical = [line] + SCALE_PROGRAM[:21]
+            phys = physical_lines(rng, logical, indent=WS_PLAIN, trailing=['', ' ', '\t', '   '], breaks=rng.choice([0.0, 0.3, 1.0]), comments_p=0.2)
+            yield 'length', n, vname, logical, phys, None
+            yield 'length', n, vname + ':padded', logical, [' ' * rng.choice(SCALE_SIZES[:9]) + ln + ' ' * rng.choice(SCALE_SIZES[:9]) for ln in logical], None
+
+    # H: program length (n logical lines)
+    for n in scale_sizes(ctx, rng, None):
+        logical = long_program(n)
+        for mode in ('plain', 'broken'):
+            phys = physical_lines(rng, logical, indent=WS_PLAIN, trailing=['', '', ' ', '\t '], breaks=0.0 if mode == 'plain' else 0.4, comments_p=0.3)
+            yield 'program-lines', n, mode, logical, phys, None
+
+
+def scale_chunks(rng, phys, cuts):
+    if isinstance(phys, tuple):                # n empty chunks among the lines of the fixed program, one chunk per line
+        chunks = list(SCALE_PROGRAM)
+        for _ in range(phys[1]):
+            chunks.insert(rng.randint(0, len(chunks)), '')
+        return chunks, list(chunks)
+    phys = list(phys)
+    nb = len(phys) - 1
+    if cuts is None:
+        cuts = set(rng.sample(range(nb), min(nb, rng.choice([0, 0, 1, 3, 6])))) if nb > 0 else set()
+    return assemble(rng, phys, ['lf', 'crlf', 'mixed'][rng.randrange(3)], cuts, rng.random() < 0.5), phys
+
+
+def stream_scale(ctx, oracle_only=False):
+    """oracle_only (used by search): every size of SCALE_EXTRA as in the thorough tier, other random choices, no model comparison"""
+    rng = ctx.rng('scale-search' if oracle_only else 'scale')
+    st = None if oracle_only else ctx.stream(
+        'scale', 'SCALE axis (sizes 0,1,2,9,10,11,16,17,64,65,100,101,128,129,256,1000,4096 + per-run extras; thorough: 41 more sizes up to 4097; nesting depth <= 256 / 1000) for every layout '
+                 'dimension: indentation width (all lines / keyword-only lines / one line; blank, tab, mixed and exotic units), trailing blanks '
+                 '(incl. padding every line to column n), both, nesting depth d with indentation proportional to the depth, n inserted '
+                 'blank/comment lines (before, after, between, everywhere, inside a continued line), ONE inserted comment/blank line of width n, '
+                 'a logical line of n+1 continuation pieces (call, function header, for, jumpif, binary chain), n blanks before / after the '
+                 'backslash and as indentation of the continued piece, n chunk cuts / n empty chunks, tokens of length n (string, name, label, '
+                 'url, bracket name, n arguments), programs of n logical lines; single lines of every statement kind (keyword-only lines and their '
+                 'near misses included) with indentation / trailing blanks / padding n; oracle: identical model (same error text) as the '
+                 'canonical text; model: Text physical+logical lines (inputs <= 300k chars), Scan.shape of the single lines; '
+                 'non-trivial = n >= 9')
+    bases = {}
+    failed = set()
+
+    def base_of(logical):
+        key = id(logical)
+        if key not in bases:
+            bases[key] = (logical, run_parse('\n'.join(logical)))
+        return bases[key][1]
+
+    model_reqs, model_meta = [], []
+    for dim, n, variant, logical, phys, cuts in scale_layout_cases(ctx, rng):
+        base = base_of(logical)
+        if base[0] == 'exc':                    # a host limit of the expression parser (recursion), not a layout question
+            continue
+        chunks, phys_lines = scale_chunks(rng, phys, cuts)
+        how, arg = as_container(rng, chunks)
+        res = run_parse(arg)
+        bad = not same_program(base, res)
+        if not bad and len(chunks) > 1 and rng.random() < 0.3:
+            how, chunks2 = 'str', [rng.choice(['\n', '\r\n']).join(chunks)]
+            if not same_program(base, run_parse(chunks2[0])):
+                bad, chunks, res = True, chunks2, run_parse(chunks2[0])
+        if bad and (dim, variant.split(':')[0]) not in failed:
+            failed.add((dim, variant.split(':')[0]))
+            ctx.witness('layout', {'original': '\n'.join(logical), 'chunks': chunks, 'as': how}, brief(base), brief(res),
+                        oracle_detail=f'scale: {dim} n={n} ({variant})')
+        if res[0] == 'err' and how != 'str':
+            msg = first_physical_line_check(chunks, res)
+            if msg and ('first-physical-line', dim) not in failed:
+                failed.add(('first-physical-line', dim))
+                ctx.witness('first-physical-line', {'chunks': list(chunks), 'as': how}, 'error.line starts with the text of physical line error.line_number', msg)
+        if st is not None:
+            size = sum(len(c) for c in chunks)
+            st.case([dim, n, variant, len(chunks), hashlib.sha256(json.dumps(chunks).encode()).hexdigest()[:12]], nontrivial=n >= 9,
+                    tags=['dim:' + dim, 'n:%d' % n if n in SCALE_SIZES else 'n:extra', 'as:' + how, 'base:' + base[0]])
+            if size <= 300000:
+                model_reqs.append({'op': 'lines', 'chunks': chunks})
+                model_meta.append((dim, n, variant, logical, chunks))
+
+    # single lines of every statement kind under indentation / trailing blanks / padding of size n
+    line_cases = []
+    for n in scale_sizes(ctx, rng, None, extra=6):
+        for line in SCALE_LINES:
+            unit = rng.choice(SCALE_UNITS)
+            variants = [('line-indent', ' ' * n + line), ('line-trailing', line + ' ' * n), ('line-pad', line.ljust(n)),
+                        ('line-indent+trailing', (unit * n)[:n] + line + rng.choice(SCALE_UNITS) * rng.choice(SCALE_SIZES[:12]))]
+            if n > 256:
+                variants = variants[:2] if line in KEYWORD_LINES else [rng.choice(variants)]
+            for dim, text in variants:
+                line_cases.append((dim, n, line, text))
+    resps = [None] * len(line_cases) if oracle_only else ctx.driver.batch([{'op': 'classify', 'line': text} for _, _, _, text in line_cases])
+    single = {}
+    for (dim, n, line, text), model in zip(line_cases, resps):
+        if line not in single:
+            single[line] = run_parse([line])
+        base = single[line]
+        if oracle_only:
+            out = run_parse([text])
+        else:
+            shape, out = impl_shape(text)
+        if not same_program(base, out) and (dim, line) not in failed:
+            failed.add((dim, line))
+            ctx.witness('layout', {'original': line, 'chunks': [text], 'as': 'list'}, brief(base), brief(out), oracle_detail=f'scale: {dim} n={n}')
+        if oracle_only:
+            continue
+        st.case([dim, n, line], nontrivial=n >= 9, tags=['dim:' + dim, 'n:%d' % n if n in SCALE_SIZES else 'n:extra', 'base:' + base[0],
+                                                         'keyword-line' if line in KEYWORD_LINES else 'kind:' + str(model.get('kind'))])
+        if shape is None:
+            if is_plain_line(text):
+                check_line_atomic(ctx, text)
+            continue
+        ctx.compare('scale', {'line': text, 'what': 'matched pattern and groups'}, jsonable(shape), model)
+        if 'kind' in model:
+            ctx.compare('scale', {'line': text, 'what': 'parse_script([line]) outcome'}, jsonable(out), jsonable(expected_single_line_outcome(text, model)))
+    if oracle_only:
+        return
+
+    # the model on the same texts: physical lines, logical lines (texts up to blanks at the ends = the canonical lines), spec = mirror
+    parser = P()
+    resps = ctx.driver.batch(model_reqs)
+    for (dim, n, variant, logical, chunks), resp in zip(model_meta, resps):
+        impl_phys = [ln for ch in chunks for ln in parser._R_SCRIPT_LINE_SPLIT.split(ch)]
+        impl_lines, out = impl_logical_lines(chunks)
+        model_lines = [t for _, t in resp['lines']]
+        model_view = model_lines if out[0] == 'ok' else model_lines[:len(impl_lines)]
+        what = {'dim': dim, 'n': n, 'variant': variant, 'chunks': chunks if sum(len(c) for c in chunks) < 3000 else len(chunks)}
+        ctx.compare('scale', dict(what, what='physical+logical lines'), [impl_phys, impl_lines, True], [resp['phys'], model_view, resp['specAgrees']])
+        if dim not in ('pieces', 'backslash', 'length', 'program-lines', 'chunks', 'fill-count', 'fill-width') and resp['error'] is None:
+            # no continuation in these dimensions: the model's logical lines are the canonical lines up to blanks at the ends
+            ctx.compare('scale', dict(what, what='model logical lines are layout independent'), [ln.strip() for ln in logical],
+                        [t.strip() for t in model_lines])
+
+
 def stream_charclass(ctx):
     st = ctx.stream('charclass', 'every code point 0..0x10FFFF (surrogates excluded): re \\s, str.strip(), re \\w, [A-Za-z_] vs Text.isSpace / '
                                  'isWord / isIdStart (compared as range lists); non-trivial = a block containing a white-space or word code point')
@@ -1281,6 +1649,7 @@ def streams(ctx):
         stream_forms(ctx)
         stream_classify(ctx)
         stream_errmsg(ctx)
+        stream_scale(ctx)
         stream_layout(ctx)
     finally:
         # the smallest failing input becomes the replay file
@@ -1331,6 +1700,14 @@ def search(ctx):
         check_input_forms(ctx, rng, [ln for p in phys for ln in ref_lines(p)])
         if len(ctx.witnesses) > before:
             return
+    # 2b. the SCALE axis of every layout dimension with all sizes (implementation oracle only)
+    _SCALE_FULL[0] = True
+    try:
+        stream_scale(ctx, oracle_only=True)
+    finally:
+        _SCALE_FULL[0] = False
+    if len(ctx.witnesses) > before:
+        return
     # 3. layout oracle: corpus first, then many programs, small and large rewrites
     programs = [item['logical'] for item in load_corpus() if item.get('stream') == 'layout']
     programs += [[ln] for ln in CLASSIFY_BASE if run_parse(ln)[0] == 'ok']
@@ -1411,7 +1788,10 @@ LEVEL_TEXT = ('Theorems for all texts: physical lines do not depend on LF vs CRL
               'regex-proxy observation of the logical lines / first matching pattern / groups, and by the layout oracle run on the implementation. '
               'Round 4: the one-string branch of parse_script is exercised with every character other text APIs take for a line boundary or a '
               'blank (stream forms, oracles input-form and only-lf-crlf-end-a-line; the lines stream feeds str/list/tuple/generator), and '
-              'the error path of "no state between calls" (an accepted text after many rejected ones, fresh-interpreter baseline).')
+              'the error path of "no state between calls" (an accepted text after many rejected ones, fresh-interpreter baseline). '
+              'Round 9: stream scale drives every layout dimension (indentation width, trailing blanks, nesting depth, inserted blank/comment '
+              'lines and their width, continuation pieces and the blanks around the backslash, chunk count, token and program length) through a '
+              'geometric size axis 0..4096 under the layout oracle.')
 LEVEL_NOTE = ('Trusted: Lean kernel; extract.py; this harness. Modelled not verified: CPython re (recognisers re-implemented by hand), Unicode '
               'white-space / word tables (exhaustively compared each run). The lift of layout independence through expression TEXT '
               '(parse_expression skips blanks before every token) belongs to ExprParse: here it is a hypothesis of leading_ws_irrelevant and is '
@@ -1419,3 +1799,9 @@ LEVEL_NOTE = ('Trusted: Lean kernel; extract.py; this harness. Modelled not veri
               'recogniser for keyword-only statements, else, if/elif/while and return (trailing_ws_irrelevant_partial, keyword_line_layout); '
               'for the other statement kinds correspondence-strength. Statelessness (parse_stateless of DESIGN) is immediate in Lean (functions) and '
               'is a property of the Python side: checked by the stateless stream (re-parse in shuffled order after mutating earlier results).')
+
+
+# extension: a line broken at ANY blank run, for every statement kind (DESIGN 13.9)
+from props import c10x  # noqa: E402  pylint: disable=wrong-import-position
+c10x.EXTRA_ROOTS = ['Drv.C10X']
+fw.attach_extension(globals(), c10x)
